@@ -169,6 +169,37 @@ def project_doc(doc, warns, evs, text, line_at, sort):
                     "dupw": sorted(dupw), "unrefw": sorted(unrefw), "final": final}}
 
 
+def numeric_leg(ctx):
+    """numeric labels keep their number as written, also 0 and numbers written with leading zeros (labels outside the
+    model's label set: the model treats every digit string alike)"""
+    from docutils import nodes
+    from ..frontends import docutils_doctree
+    for sort in (True, False):
+        for labs in (["0", "2", "n", "007"], ["01", "1"], ["10", "0", "x", "2"]):
+            text = " ".join(f"r{l}[^{l}]" for l in labs) + "\n\n" + "\n\n".join(f"[^{l}]: D{l}" for l in labs) + "\n"
+            ctx.count(("numeric", text, sort))
+            ctx.traces_validated += 1
+            case = {"leg": "R-numeric", "markdown": text, "footnote_sort": sort}
+            try:
+                doc, warns = docutils_doctree(text, {"myst_footnote_sort": sort})
+            except Exception as e:  # noqa: BLE001
+                ctx.violation(f"publish_doctree raised {type(e).__name__}: {e}", case)
+                continue
+            shown = {}
+            for f in doc.findall(nodes.footnote):
+                body = f.astext()
+                for l in labs:
+                    if body.endswith("D" + l):
+                        shown[l] = f.children[0].astext() if isinstance(f.children[0], nodes.label) else None
+            bad = [l for l in labs if l.isdigit() and shown.get(l) != l]
+            if bad:
+                ctx.violation(f"numeric footnote labels {bad} do not keep their number: definitions show {shown}", case)
+            refs = {r.astext() for r in doc.findall(nodes.footnote_reference)}
+            if not all(l in refs for l in labs if l.isdigit()):
+                ctx.violation(f"references to numeric labels show {sorted(refs)}", case)
+    ctx.leg("R-numeric", documents=6)
+
+
 def sphinx_leg(ctx, recs, quick):
     """Sphinx front end: the project sets footnote_sort / footnote_transition one way, every document sets its own values
     in its front matter (half of them the opposite): the transforms obey the DOCUMENT's configuration."""
@@ -277,6 +308,7 @@ def run(ctx):
     ctx.sample({"arrangement": mid["evs"], "sort": mid["sort"], "transition": mid["trans"], "expected": _exp(mid)})
     ctx.leg("R", behaviours=len(recs))
     sphinx_leg(ctx, recs, quick)
+    numeric_leg(ctx)
 
     # ---- V ----------------------------------------------------------------------------------
     rnd = random.Random(ctx.seed + 11)
